@@ -491,7 +491,7 @@ where T: Canon + Serialize + Deserialize<'static>
 {
     let v = T::parse(&mut P::new(val));
     let orig = v.show();
-    let bytes = match minicbor_serde::to_vec(&v) {
+    let bytes = match crate::sser::to_vec(&v) {
         Ok(b) => b,
         Err(_) => return with_oracle("refused;-".into(), Err("serialisation refused".into()))
     };
@@ -501,7 +501,7 @@ where T: Canon + Serialize + Deserialize<'static>
     let pos = d.decoder().position();
     let mut verdict = Ok(());
     if !one_item(&bytes) { verdict = Err("output is not exactly one CBOR item".into()) }
-    if minicbor_serde::to_vec(&v).ok().as_deref() != Some(&bytes[..]) { verdict = Err("nondeterministic serialisation".into()) }
+    if crate::sser::to_vec(&v).ok().as_deref() != Some(&bytes[..]) { verdict = Err("nondeterministic serialisation".into()) }
     if !lossy {
         match &r {
             Ok(x) => {
@@ -568,13 +568,17 @@ pub fn ser_handler(a: &[&str]) -> String { ser_dispatch(a[0], a[1]).unwrap_or_el
 pub fn de_handler(a: &[&str]) -> String { de_dispatch(a[0], &unhex(a[1])).unwrap_or_else(|| "?bad-type".into()) }
 
 // ------------------------------------------------------------------ C18: bridge vs native on the shared data model
+#[cfg(not(feature = "cfgmatrix"))]
+mod c18 {
+use super::*;
+
 /// X18: "<bridge bytes>;<native bytes>;<native bytes read by the bridge>;<bridge bytes read natively>"
-fn x18<T>(val: &str, lossy: bool) -> String
+pub(super) fn x18<T>(val: &str, lossy: bool) -> String
 where T: Canon + Serialize + Deserialize<'static> + minicbor::Encode<()> + for<'b> minicbor::Decode<'b, ()>
 {
     let v = T::parse(&mut P::new(val));
     let orig = v.show();
-    let sb = minicbor_serde::to_vec(&v).ok();
+    let sb = crate::sser::to_vec(&v).ok();
     let nb = minicbor::to_vec(&v).ok();
     let mut verdict = Ok(());
     let h = |b: &Option<Vec<u8>>| b.as_ref().map(|b| hex(b)).unwrap_or_else(|| "refused".into());
@@ -615,7 +619,7 @@ where T: Canon + Serialize + Deserialize<'static> + minicbor::Encode<()> + for<'
 }
 
 /// XR: an alternative encoding read by both decoders: "<bridge outcome>;<native outcome>"
-fn xr<T>(inp: &[u8]) -> String
+pub(super) fn xr<T>(inp: &[u8]) -> String
 where T: Canon + Deserialize<'static> + for<'b> minicbor::Decode<'b, ()>
 {
     let mut d1 = minicbor_serde::Deserializer::new(leak(inp));
@@ -672,3 +676,7 @@ shared_registry! {
 
 pub fn x18_handler(a: &[&str]) -> String { x18_dispatch(a[0], a[1]).unwrap_or_else(|| "?bad-type".into()) }
 pub fn xr_handler(a: &[&str]) -> String { xr_dispatch(a[0], &unhex(a[1])).unwrap_or_else(|| "?bad-type".into()) }
+
+}
+#[cfg(not(feature = "cfgmatrix"))]
+pub use c18::{x18_handler, xr_handler};
